@@ -4,7 +4,6 @@ from __future__ import annotations
 import re
 from collections.abc import Iterable, Sequence
 from dataclasses import dataclass
-from re import Pattern
 
 __all__ = ['ListEntry', 'ListTree']
 
@@ -84,12 +83,11 @@ class ListTree:
 
     _wildcards = re.compile(r'([\*\%])')
 
-    __slots__ = ['_delimiter', '_no_delimiter', '_root', '_marked']
+    __slots__ = ['_delimiter', '_root', '_marked']
 
     def __init__(self, delimiter: str) -> None:
         super().__init__()
         self._delimiter = delimiter
-        self._no_delimiter = '[^' + re.escape(delimiter) + ']*?'
         self._root = _TreeNode('')
         self._marked: dict[str, bool] = {}
 
@@ -191,17 +189,50 @@ class ListTree:
         for entry in self._iter(self._root, ''):
             yield entry
 
-    def _get_pattern(self, query: str) -> tuple[Pattern[str], Pattern[str]]:
-        pattern_parts: list[str] = []
+    def _get_tokens(self, query: str) -> Sequence[str]:
+        # Adjacent wildcards are collapsed: any run containing '*' is
+        # equivalent to a single '*', a run of only '%' to a single '%'.
+        tokens: list[str] = []
         for part in self._wildcards.split(query):
-            if part == '*':
-                pattern_parts.append('.*?')
-            elif part == '%':
-                pattern_parts.append(self._no_delimiter)
+            if part in ('*', '%'):
+                if tokens and tokens[-1] in ('*', '%'):
+                    if part == '*':
+                        tokens[-1] = '*'
+                else:
+                    tokens.append(part)
+            elif part:
+                tokens.append(part)
+        return tokens
+
+    def _matches(self, tokens: Sequence[str], name: str,
+                 ignore_case: bool = False) -> bool:
+        # Tracks the set of positions in name reachable after each token, so
+        # the cost is bounded by len(tokens) * len(name) regardless of input.
+        if ignore_case:
+            name = name.lower()
+        delimiter = self._delimiter
+        end = len(name)
+        positions = {0}
+        for token in tokens:
+            reachable: set[int] = set()
+            if token == '*':
+                reachable.update(range(min(positions), end + 1))
+            elif token == '%':
+                for pos in positions:
+                    reachable.add(pos)
+                    while pos < end and not name.startswith(delimiter, pos):
+                        pos += 1
+                        reachable.add(pos)
             else:
-                pattern_parts.append(re.escape(part))
-        pattern = '^' + ''.join(pattern_parts) + '$'
-        return re.compile(pattern), re.compile(pattern, re.IGNORECASE)
+                if ignore_case:
+                    token = token.lower()
+                for pos in positions:
+                    if name.startswith(token, pos):
+                        reachable.add(pos + len(token))
+            if not reachable:
+                return False
+            positions = reachable
+        return end in positions
 
     def list_matching(self, ref_name: str, filter_: str) \
             -> Iterable[ListEntry]:
@@ -212,10 +243,10 @@ class ListTree:
             filter_: Mailbox name with possible wildcards.
 
         """
-        canonical, canonical_i = self._get_pattern(ref_name + filter_)
+        tokens = self._get_tokens(ref_name + filter_)
         for entry in self.list():
             if entry.name == 'INBOX':
-                if canonical_i.match('INBOX'):
+                if self._matches(tokens, 'INBOX', True):
                     yield entry
-            elif canonical.match(entry.name):
+            elif self._matches(tokens, entry.name):
                 yield entry
